@@ -5,8 +5,10 @@
    Full statement (DESIGN.md):
      C10_simulation : forall acts, agree (final acts) = true
    (the bot fed with what the reference server emits agrees with the server's view after every history).
-   The pinned code violates it in three ways (findings F10, F10b, F10c): proved below are the three refutations
-   with witnesses outside the decidable domain [dom], and -- for ALL bot states, no size bound -- the effect of the
+   The code violated it in three ways (findings F10, F10b, F10c).  F10 (case-only NICK) and F10b (userhost-in-names
+   NAMES) are repaired: their refutation theorems are gone, their witnesses are now inside [dom] and agree
+   (Sim.fixed_casenick / fixed_uhnames), and the NICK/hostmask theorem is the full statement.  F10c (int() coercion,
+   a documented API of separateModes) stays: proved below are its refutation with a witness outside [dom], and -- for ALL bot states, no size bound -- the effect of the
    handlers the property is about.  NOT proved: the trace-level theorem
      forall acts, dom acts = true -> agree (final acts) = true
    (it needs a global invariant linking the server's tables to the bot's five sets per channel through the
@@ -18,40 +20,30 @@ Require Import Base.Wire Base.PyStr C10.Model C10.Lemmas C10.Handlers C10.Sim.
 
 (* ---- refutations of the simulation: concrete conformant histories outside [dom] after which the bot model
         disagrees with the server (replayed on the implementation: findings F10, F10b, F10c) ---- *)
-Theorem C10_simulation_refuted_casenick :
-  exists acts, dom acts = false /\ ends_agreeing acts = false.
-Proof. exists witness_casenick. exact refuted_casenick. Qed.
-Print Assumptions C10_simulation_refuted_casenick.
-
-Theorem C10_simulation_refuted_uhnames :
-  exists acts, dom acts = false /\ ends_agreeing acts = false.
-Proof. exists witness_uhnames. exact refuted_uhnames. Qed.
-Print Assumptions C10_simulation_refuted_uhnames.
-
 Theorem C10_simulation_refuted_intarg :
   exists acts, dom acts = false /\ ends_agreeing acts = false.
 Proof. exists witness_intarg. exact refuted_intarg. Qed.
 Print Assumptions C10_simulation_refuted_intarg.
 
-(* ---- NICK and hostmasks, every state: after  :old!u@h NICK new  the record of [new] is new!u@h and [old] is
-        forgotten, provided the change is not case-only ... ---- *)
-Theorem C10_nick_hostmask_on_domain :
+(* ---- NICK and hostmasks, every state, FULL statement (case-only changes included): after  :old!u@h NICK new
+        the record of [new] is new!u@h, and [old] is forgotten unless it is the same nick under IRC case rules ---- *)
+Theorem C10_nick_hostmask :
   forall m b new rest,
   m_args m = new :: rest -> nonempty (msg_user m) = true -> nonempty (msg_host m) = true -> new <> [] ->
-  feq new (msg_nick m) = false ->
   idict_get new (b_n2h (st_doNick m b)) = Some (joinHostmask new (msg_user m) (msg_host m))
-  /\ idict_get (msg_nick m) (b_n2h (st_doNick m b)) = None.
-Proof. exact doNick_hostmask_on_domain. Qed.
-Print Assumptions C10_nick_hostmask_on_domain.
+  /\ (feq new (msg_nick m) = false -> idict_get (msg_nick m) (b_n2h (st_doNick m b)) = None).
+Proof. exact doNick_hostmask. Qed.
+Print Assumptions C10_nick_hostmask.
 
-(* ... and when it is case-only the entry is erased, in EVERY state (finding F10) *)
-Theorem C10_nick_hostmask_refuted :
-  forall m b new rest,
-  m_args m = new :: rest -> nonempty (msg_user m) = true -> nonempty (msg_host m) = true -> new <> [] ->
-  feq new (msg_nick m) = true ->
-  idict_get new (b_n2h (st_doNick m b)) = None.
-Proof. exact doNick_caseonly_erases. Qed.
-Print Assumptions C10_nick_hostmask_refuted.
+(* ---- NAMES with userhost-in-names, every state: an item [prefixes]nick!user@host records nick!user@host under the
+        bare nick ---- *)
+Theorem C10_names_uhnames_hostmask :
+  forall ch item name user host nick b,
+  isUserHostmask item = true -> splitHostmask item = Some (name, user, host) ->
+  lstrip gen.T10.SIGILS_353 name = nick -> nick <> [] ->
+  idict_get nick (b_n2h (fst (names_loop ch [item] b))) = Some (joinHostmask nick user host).
+Proof. exact names_item_hostmask. Qed.
+Print Assumptions C10_names_uhnames_hostmask.
 
 (* every other nick keeps its hostmask across a NICK *)
 Theorem C10_nick_others_partial :
